@@ -3,13 +3,13 @@
    wait_queue.rs; SC semantics; any number of threads, programs, schedules; spurious failure of
    compare_exchange_weak is a schedule choice).
    Proved here: mutual exclusion, the writer gate (safety core of "a queued writer is not starved
-   by a stream of readers"), try_read/try_write never block.
-   NOT proved for the rwlock: the wake-owed / deadlock-freedom theorem (proved for HybridMutex
-   only, Props/C10.v) and list well-formedness; for the rwlock these are covered only by the
-   scheduler-side deadlock monitor and the D2 trace refinement, i.e. by search, not by theorem. *)
+   by a stream of readers"), try_read/try_write never block, wake owed / deadlock freedom (no
+   reachable quiescent state has a parked or queued waiter: in particular a linked writer is never
+   left parked with the lock free), wait-list well-formedness, forwarding of a cancelled wake.
+   NOT proved: "eventually under fair scheduling" (only the safety core above), bounded waiting. *)
 From Coq Require Import List NArith Arith Bool.
 From Fibre Require Import Common.Conc Sync.HMutex Sync.HRwLock Proofs.HMutexBase Proofs.HRwBase
-     Proofs.HRwGuard Proofs.HRwProofs.
+     Proofs.HRwGuard Proofs.HRwProofs Proofs.HRwQueue Proofs.HRwNode Proofs.HRwWake Proofs.HRwOwed Proofs.HRwLive.
 Import ListNotations.
 
 (* Guard accounting: WRITE_LOCKED set => zero readers, no read guard, exactly one write guard;
@@ -56,20 +56,71 @@ Theorem C10_rw_try_nonblocking : forall s t c,
     end.
 Proof. exact rw_try_nonblocking. Qed.
 
-(* Wake initiation (only a fragment of "wake owed"): a release that frees the lock completely while a
-   node is linked whose owner is past its fetch_or runs wake_waiters; a cancelled future whose node was
-   WOKEN passes the wake on.  That the wake reaches a waiter able to use it is NOT proved here. *)
+(* Wake owed (safety core of "blocking and async acquirers eventually acquire after the lock is
+   released" and of "a queued writer is not starved"): a reachable state in which no thread can take
+   a step has the lock completely free, the wait list empty, and nobody parked ... *)
+Theorem C10_rw_wake_owed : forall progs s,
+  reachable (rwsys progs) s -> quiescent (rwsys progs) s ->
+  wl s = false /\ rd s = 0%N /\ rqueue s = [] /\ wholders s = [] /\ rholders s = [] /\ rllock s = None
+  /\ forall t k, rpcs s t <> RPark k /\ rpcs s t <> RBPark.
+Proof. exact rw_wake_owed. Qed.
+
+(* ... indeed every thread has finished its program and dropped its futures *)
+Theorem C10_rw_deadlock_free : forall progs s,
+  reachable (rwsys progs) s -> quiescent (rwsys progs) s ->
+  forall t, rpcs s t = RIdle /\ rfut s t = None.
+Proof. exact rw_deadlock_free. Qed.
+
+(* Wait-list well-formedness: no owner is linked twice; the owner of every linked node is alive
+   (inside read_slow/write_slow, or owning an un-dropped future) and the node's is_writer flag is the
+   owner's kind: a dropped read/write future leaves no dangling node. *)
+Theorem C10_rw_list_wf : forall progs s,
+  reachable (rwsys progs) s ->
+  NoDup (map fst (rqueue s))
+  /\ forall u b, In (u, b) (rqueue s) ->
+       (rinsync (rpcs s u) = true \/ rfut s u <> None)
+       /\ exists k, rckind (rpcs s u) (rfut s u) = Some k /\ b = is_wr k.
+Proof. exact rw_list_wf. Qed.
+
+(* The invariant behind wake-owed, pinned: while the lock is completely free and the list is non-empty,
+   a wake_waiters is on its way (a release that saw HAS_QUEUED, or a dropped WOKEN future from its
+   unlink on), or the wake target is awake (first queued writer WOKEN / re-checking; with no writer
+   queued, some queued reader re-checking). *)
+Theorem C10_rw_wake_in_flight : forall progs s,
+  reachable (rwsys progs) s -> wl s = false -> rd s = 0%N -> rqueue s <> [] ->
+  (exists w, rprew s w) \/ rtarget_ok s.
+Proof. exact rw_wake_in_flight. Qed.
+
+(* A parked waiter whose node was marked WOKEN has its token, or its handle is still in the wake
+   list of a wake_waiters that will fire it. *)
+Theorem C10_rw_woken_has_token : forall progs s,
+  reachable (rwsys progs) s ->
+  (forall h k, rpcs s h = RPark k -> rnwk s h = true -> rtoken s h = true \/ exists w, pendT (rpcs s w) h)
+  /\ (forall h, rpcs s h = RBPark -> rnwk s h = true ->
+        (exists w, pendB (rpcs s w) h)
+        \/ (rbwoken s h = true /\ (rtoken s h = true \/ exists w r, rpcs s w = RWWake h r))).
+Proof. exact rw_woken_has_token. Qed.
+
+(* A cancelled future whose node was WOKEN passes the wake on: its drop continues into wake_waiters,
+   and from its unlink on it counts as the waker in flight of C10_rw_wake_in_flight; that the forwarded
+   wake reaches a waiter is C10_rw_woken_has_token + C10_rw_wake_owed (no quiescent state with a
+   waiter), instantiated by the Example C10_ex_rw_cancel_forwards below. *)
+Theorem C10_rw_cancel_forwards_wake : forall s t c,
+  rpcs s t = RDLoad -> rnwk s t = true ->
+  (exists s' e, rwstep s t c = Some (s', e) /\ rpcs s' t = RLLSwap RLWake /\ rfut s' t = None)
+  /\ rprew s t.
+Proof.
+  intros s t c Epc Hn. split; [apply rw_cancel_forwards_wake; assumption|].
+  apply rw_cancel_is_waker; [rewrite Epc; reflexivity|exact Hn].
+Qed.
+
+(* a release that frees the lock while a node past its fetch_or is linked runs wake_waiters *)
 Theorem C10_rw_release_wakes : forall progs s t k c u b,
   reachable (rwsys progs) s -> rpcs s t = RURel k ->
   (k = WR \/ rd s = 1%N) ->
   In (u, b) (rqueue s) -> (forall q, rpcs s u <> RQFor q) ->
   exists s' e, rwstep s t c = Some (s', e) /\ rpcs s' t = RLLSwap RLWake.
 Proof. exact rw_release_wakes. Qed.
-
-Theorem C10_rw_cancel_forwards_wake : forall s t c,
-  rpcs s t = RDLoad -> rnwk s t = true ->
-  exists s' e, rwstep s t c = Some (s', e) /\ rpcs s' t = RLLSwap RLWake /\ rfut s' t = None.
-Proof. exact rw_cancel_forwards_wake. Qed.
 
 (* ---- non-vacuity *)
 Definition rrep (n : nat) (x : nat * rch) := repeat x n.
@@ -99,4 +150,24 @@ Example C10_ex_writer_woken :
                     (rsch_gate ++ rrep 7 (0, RGo) ++ rrep 11 (1, RGo))) in
   rpcs s 0 = RIdle /\ rpcs s 1 = RIdle /\ rqueue s = [] /\ wl s = false /\ wp s = false /\ hq s = false
   /\ rresults s = [(0, RRL RD); (1, RRL WR)].
+Proof. vm_compute. repeat split. Qed.
+
+(* a reader holds; thread 1 polls a WRITE future once (queued, WRITER_PENDING up); thread 2 blocks in
+   read_async behind it; the reader's unlock wakes the writer future (WOKEN, still linked), which is
+   then CANCELLED: its drop clears WRITER_PENDING, forwards the wake, and the sweep wakes thread 2,
+   which acquires the read lock *)
+Definition rprogs4 (t : nat) : list rop :=
+  match t with 0 => [ROLock RD] | 1 => [ROPoll WR; RODropFut] | 2 => [ROAsync RD] | _ => [] end.
+Definition rsch_q := rrep 2 (0, RGo) ++ rrep 7 (1, RGo) ++ rrep 7 (2, RGo) ++ rrep 5 (0, RGo).
+Example C10_ex_rw_woken_writer_future :
+  let s := fst (run (rwsys rprogs4) (rwinit rprogs4) rsch_q) in
+  wl s = false /\ rd s = 0%N /\ wp s = true /\ rqueue s = [(1, true); (2, false)] /\ rnwk s 1 = true
+  /\ rpcs s 1 = RIdle /\ rfut s 1 = Some (WR, false) /\ rpcs s 2 = RBPark /\ rwstep s 2 RGo = None.
+Proof. vm_compute. repeat split. Qed.
+
+Example C10_ex_rw_cancel_forwards :
+  let s := fst (run (rwsys rprogs4) (rwinit rprogs4) (rsch_q ++ rrep 11 (1, RGo) ++ rrep 7 (2, RGo))) in
+  rpcs s 0 = RIdle /\ rpcs s 1 = RIdle /\ rpcs s 2 = RIdle /\ rqueue s = [] /\ wl s = false /\ rd s = 0%N
+  /\ wp s = false /\ hq s = false /\ rfut s 1 = None /\ rfut s 2 = None
+  /\ rresults s = [(0, RRL RD); (1, RRP false); (2, RRA RD)].
 Proof. vm_compute. repeat split. Qed.
